@@ -5,21 +5,24 @@ EXTENDS Integers, Sequences, FiniteSets, TLC, Json
 Trace == ndJsonDeserialize("trace.ndjson")
 VARIABLES l, viol, stat
 tvars == <<l, viol, stat>>
-Stat0 == [events |-> 0, load |-> 0, clone |-> 0, get |-> 0, ins |-> 0, upd |-> 0, noop |-> 0, del |-> 0, nodel |-> 0, maxheight |-> 0, maxloads |-> 0, heightchanged |-> 0]
+Stat0 == [events |-> 0, load |-> 0, clone |-> 0, cursor |-> 0, get |-> 0, ins |-> 0, upd |-> 0, noop |-> 0, del |-> 0, nodel |-> 0, maxheight |-> 0, maxloads |-> 0, heightchanged |-> 0]
 TInit == l = 1 /\ viol = {} /\ stat = Stat0
 Ev == Trace[l]
 V(why) == [p |-> "C16", l |-> l, tr |-> l, why |-> why, h |-> 0]
-Bound(e) == IF e.kind \in {"load", "clone"} THEN 1
-            ELSE IF e.kind \in {"get", "upd", "noop"} THEN e.height + 1
+\* (a value replacement and an insert of an equal value are inserts: the stated bound for them is 2*(height+1), whatever the code needs)
+\* (opening a cursor captures - clones - the version it is opened on)
+Bound(e) == IF e.kind \in {"load", "clone", "cursor"} THEN 1
+            ELSE IF e.kind = "get" THEN e.height + 1
             ELSE 2 * (e.height + 1)
 TStep == /\ l <= Len(Trace)
          /\ LET e == Ev
-                judged == e.kind \in {"load", "clone", "get", "upd", "noop"} \/ e.h2 = e.height     \* inserts / deletes only when the height did not change
+                judged == e.kind \in {"load", "clone", "cursor", "get", "upd", "noop"} \/ e.h2 = e.height     \* inserts / deletes only when the height did not change
                 v == IF judged /\ e.loads > Bound(e)
                      THEN {V(CASE e.kind = "load" -> "opening a version reads more than its top node"
                                [] e.kind = "clone" -> "cloning reads more than the top node"
                                [] e.kind = "get" -> "a lookup reads more than height+1 nodes"
-                               [] e.kind \in {"upd", "noop"} -> "replacing a value reads more than height+1 nodes"
+                               [] e.kind = "cursor" -> "opening a cursor on a persisted version (capturing it) reads more than its top node"
+                               [] e.kind \in {"upd", "noop"} -> "replacing a value reads more than 2*(height+1) nodes"
                                [] OTHER -> "an insert or delete that keeps the height reads more than 2*(height+1) nodes")} ELSE {}
             IN /\ viol' = viol \cup v
                /\ stat' = [stat EXCEPT !.events = @ + 1, ![e.kind] = @ + 1, !.maxheight = IF e.height > @ THEN e.height ELSE @,
